@@ -57,7 +57,8 @@ ASSUMPTIONS = [
     "parameters that never appear on the wire (window_bits / no_context_takeover / compress_level overrides, mem_level) are judged for COMPATIBILITY with the negotiated values, not literal equality",
     "permessage-bzip2 / permessage-brotli are not standardised: parameter names and 'offered => may be requested' semantics are taken from the library's documentation; brotli is checked against a reference codec only in directions negotiated as no-context-takeover",
     "an accept callback that catches the constructor's refusal and returns None is the application's accept policy declining",
-    "grey, not asserted: window size 8 (valid in the RFC, refused by the library), lenient decimal parsing of parameter values, a response parameter that contradicts the client's own offer, extensions in the response the client never offered",
+    "window size 8 (valid in RFC 7692, outside the library's documented 9..15): the client may fail the handshake OR open - if it opens, both directions must work losslessly against a peer honouring exactly the negotiated parameters (pure-Python LZ77 compressor with a true 2^8 window) and sendMessage must not raise",
+    "grey, not asserted: lenient decimal parsing of parameter values, a response parameter that contradicts the client's own offer, extensions in the response the client never offered",
     "permessage-snappy: python-snappy is not installed on this image - NOT exercised",
     "max_message_size of the accept objects is property C16's subject and left unset",
     "not asserted: whether ping/pong/close callbacks still reach the application after the endpoint failed the connection in closing-handshake mode (failByDrop=False)",
@@ -72,7 +73,7 @@ DECIDING = {
     "donotcompress_checked": 20, "policy_declines_checked": 5,
     "hostile_must_fail_checked": 50, "hostile_controls_opened": 5,
     "offers_judged": 20, "peer_ref_to_lib_compared": 50, "peer_lib_to_ref_compared": 50,
-    "rsv_reject_checked": 20, "rsv_controls_delivered": 4,
+    "rsv_reject_checked": 20, "rsv_controls_delivered": 4, "window8_cases_evaluated": 8,
 }
 
 EXTS = (CC.DEFLATE, CC.BZIP2, CC.BROTLI)
@@ -254,12 +255,17 @@ def response_cases(tier, seed):
                 # no value at all: RFC 7692 requires one for deflate (7.1.2.1 / 7.1.2.2 in a response); bzip2 has no spec
                 add("missing-value", "%s; %s" % (ext, name), "fail" if ext == CC.DEFLATE else "grey")
                 if ext == CC.DEFLATE:
-                    add("grey-window-8", "%s; %s=8" % (ext, name), "grey")
                     add("grey-lenient-number", "%s; %s=010" % (ext, name), "grey")
         # declined by the application's accept policy
         add("declined-by-policy", ext, "fail", "decline-all")
         for _ in range(n_gen):
             add("declined-by-policy", _valid_element(rng, ext), "fail", "decline-all")
+    # window size 8 (valid in the RFC, outside the library's 9..15): fail the handshake OR work losslessly
+    for w8 in ("server_max_window_bits=8", "client_max_window_bits=8", "server_max_window_bits=8; client_max_window_bits=8",
+               "client_max_window_bits=8; server_max_window_bits=12", 'client_max_window_bits="8"'):
+        for ctx in ("", "; server_no_context_takeover; client_no_context_takeover", "; client_no_context_takeover",
+                    "; server_no_context_takeover"):
+            add("window-8", "permessage-deflate; %s%s" % (w8, ctx), "fail-or-lossless")
     add("declined-on-parameter", "permessage-deflate", "fail", "decline-window-above-12")
     add("declined-on-parameter", "permessage-deflate; server_max_window_bits=13", "fail", "decline-window-above-12")
     add("valid/deflate", "permessage-deflate; server_max_window_bits=12", "open", "decline-window-above-12")
@@ -298,6 +304,13 @@ def offer_cases(tier, seed):
     for w in (9, 10, 12, 15):
         add("client-window-hint", "permessage-deflate; client_max_window_bits=%d" % w, 2 * mult)
         add("client-window-hint", 'permessage-deflate; client_max_window_bits=%d; server_max_window_bits="%d"' % (w, w), mult)
+    # window size 8 in an offer (valid in the RFC, outside the library's 9..15): whatever the server answers is judged
+    # and then has to work against a peer that honours exactly the answered parameters
+    for s8 in ("permessage-deflate; server_max_window_bits=8", "permessage-deflate; client_max_window_bits=8",
+               "permessage-deflate; server_max_window_bits=8; client_max_window_bits",
+               "permessage-deflate; server_max_window_bits=8; server_no_context_takeover",
+               "permessage-deflate; server_max_window_bits=8, permessage-deflate"):
+        add("window-8", s8, 2 * mult)
     # invalid elements (alone: nothing may be accepted from them; followed by a valid fallback element)
     invalid = ["permessage-deflate; server_max_window_bits=16", "permessage-deflate; server_max_window_bits=7",
                "permessage-deflate; server_max_window_bits", "permessage-deflate; server_max_window_bits=abc",
@@ -461,8 +474,9 @@ MANIFEST_ENTRY = {
              "control frames / RSV1 continuations must be rejected. Held = no deviation on the executions listed in the evidence; "
              "not a proof."),
     "note": ("trusts vf/c12_ref.py (self-checked on the RFC 7692 7.2.3 octet examples), zlib/bz2/brotli; local overrides that never reach "
-             "the wire are judged for compatibility, not equality; permessage-snappy is not installed and not exercised; window size 8, "
-             "lenient number parsing and responses contradicting the client's own offer are grey and not asserted"),
+             "the wire are judged for compatibility, not equality; permessage-snappy is not installed and not exercised; a window size "
+             "of 8 must either fail the handshake or work losslessly; lenient number parsing and responses contradicting the client's "
+             "own offer are grey and not asserted"),
     "technique": ("runtime monitoring: exhaustive configuration-lattice enumeration + history monitors with an independent RFC 7692 "
                   "reference codec/negotiation judge over object-level and real-handshake executions (virtual-clock Twisted and asyncio worlds)"),
 }
